@@ -253,6 +253,9 @@ def h_dsatuto(env):
         env.prove("dsatuto.C08.no-invalid-cycle-error", False, detail=lambda: "%s\n%s" % (e, e.tb))
         return
     env.cover("ran")
+    env.prove("dsatuto.C08.no-invalid-cycle-error", True)
+    env.prove("dsatuto.C08.every-computation-reached-the-last-round",
+              all(c.current_cycle >= rounds for c in net.comps.values() if c.neighbors), detail=lambda: {n: c.current_cycle for n, c in net.comps.items()})
     _check_moves(env, "dsatuto", net, mode, variables, tabs, varcost)
 
 
